@@ -60,7 +60,7 @@ package dag
 //@   modifies nothing
 
 //@ func read
-//@   props C07 C03 C01 C05 C02 C06
+//@   props C07 C03 C01 C05 C02 C06 C04
 //@   nopanic
 //@   pure wrapper
 //@   requires repo != nil && def.OperationUnmarshaler != nil
@@ -101,11 +101,14 @@ package dag
 //@   check [clock-edge] err == nil ==> (forall k int :: { BFSOrder[k] } 0 <= k && k < len(BFSOrder) ==> (forall j int :: { BFSOrder[k].Parents[j] } 0 <= j && j < len(BFSOrder[k].Parents) ==> (BFSOrder[k].Parents[j] in oppMap) && oppMap[BFSOrder[k].Parents[j]].EditTime < oppMap[BFSOrder[k].Hash].EditTime))
 //@   check [clock-jump] err == nil ==> (forall k int :: { BFSOrder[k] } 0 <= k && k < len(BFSOrder) && len(BFSOrder[k].Parents) <= 1 ==> (forall j int :: { BFSOrder[k].Parents[j] } 0 <= j && j < len(BFSOrder[k].Parents) ==> oppMap[BFSOrder[k].Hash].EditTime - oppMap[BFSOrder[k].Parents[j]].EditTime <= 1000000))
 //@   loop 1
+//@     invariant [parents-are-walked-or-queued] forall k int :: { BFSOrder[k] } 0 <= k && k < len(BFSOrder) ==> (forall j int :: { BFSOrder[k].Parents[j] } 0 <= j && j < len(BFSOrder[k].Parents) ==> (BFSOrder[k].Parents[j] in visited))
 //@     invariant [head-first] (BFSOrder == nil || fresh(BFSOrder)) && (queue == nil || fresh(queue)) && !samearray(queue, BFSOrder) && (len(BFSOrder) == 0 ==> len(queue) > 0 && queue[0] == rootHash) && (len(BFSOrder) > 0 ==> BFSOrder[0].Hash == rootHash)
 //@   loop 2
+//@     invariant [parents-are-walked-or-queued] len(BFSOrder) > 0 && BFSOrder[len(BFSOrder) - 1].Parents == commit.Parents && (forall k int :: { BFSOrder[k] } 0 <= k && k < len(BFSOrder) - 1 ==> (forall j int :: { BFSOrder[k].Parents[j] } 0 <= j && j < len(BFSOrder[k].Parents) ==> (BFSOrder[k].Parents[j] in visited))) && (forall j int :: { commit.Parents[j] } 0 <= j && j <= rangeindex ==> (commit.Parents[j] in visited))
 //@     invariant [head-first] (BFSOrder == nil || fresh(BFSOrder)) && (queue == nil || fresh(queue)) && !samearray(queue, BFSOrder) && len(BFSOrder) > 0 && BFSOrder[0].Hash == rootHash
 //@   loop 3
 //@     invariant opsCount >= 0
+//@     invariant [the-walk-ran-to-its-end] len(queue) == 0
 //@     invariant [head-first] len(BFSOrder) > 0 && BFSOrder[0].Hash == rootHash
 //@     invariant [times] (forall h repository.Hash :: { oppMap[h] } (h in oppMap) ==> oppMap[h].EditTime == packEdit(h))
 //@     invariant [root-count] (rootCount == 0 || rootCount == 1) && (rootCount == 0 ==> (forall k int :: { BFSOrder[k] } 0 <= k && k <= rangeindex ==> len(BFSOrder[k].Parents) > 0))
@@ -296,6 +299,9 @@ package dag
 //@   purefn
 //@ func (*Entity).Commit
 //@   props C06 C05 C15 C04
+// (C04: logical times read back as they were) a pack is stamped with the entity's edit time, and the root pack - and only
+// it - with the entity's creation time
+//@   assert at `commitHash, err := opp.Write(e.Definition, repo, parentCommit...)` [pack-stamped-with-the-entity-s-times] opp.EditTime == e.editTime && (len(parentCommit) == 0 ==> opp.CreateTime == e.createTime) && (len(parentCommit) > 0 ==> opp.CreateTime == 0)
 //@   ensures [own-namespace-only] forall k string :: { (k in repository.refs) } !strings.HasPrefix(k, "refs/" + e.Namespace + "/") ==> (k in repository.refs) == (k in old(repository.refs)) && repository.refs[k] == old(repository.refs)[k]
 //@   requires e != nil && repo != nil
 //@   requires [separate] sarr(e.ops) != sarr(e.staging) || sarr(e.ops) == 0
